@@ -507,7 +507,7 @@ class ModuleEmitter:
                 attrs["enum_base_type"] = field.enum_name
             if field.enum_variants is not None:
                 for var_val, var_name in field.enum_variants.items():
-                    attrs["enum_value_" + to_binary(var_val, len(signal))] = var_name
+                    attrs["enum_value_" + to_binary(var_val & ((1 << len(signal)) - 1), len(signal))] = var_name
 
             if name in self.module.ports:
                 port_value, _flow = self.module.ports[name]
@@ -697,7 +697,8 @@ class ModuleEmitter:
                     attrs["enum_base_type"] = field.enum_name
                 if field.enum_variants is not None:
                     for var_val, var_name in field.enum_variants.items():
-                        attrs["enum_value_" + to_binary(var_val, len(field.value))] = var_name
+                        attrs["enum_value_" + to_binary(var_val & ((1 << len(field.value)) - 1),
+                                                               len(field.value))] = var_name
                 wire = self.builder.wire(width=len(field.value), signed=field.signed, attrs=attrs,
                                          name="".join(name_parts), src_loc=signal.src_loc)
                 self.builder.connect(wire.name, self.sigspec(field.value))
